@@ -59,7 +59,15 @@ def run(tier):
     chk.cov["tolerance_K"] = K_TOL
     if rep["distinct_cases"] < 900:
         raise ToolError("vacuity: only %d (type, function) cases in the float sweep" % rep["distinct_cases"])
+    # the two-argument arctangent (the property names it): quadrants, next to each half axis, on the half axes
+    rep2 = run_harness("hcore", ["float-pow", "--what", "atan2", "--tables", tb.out_path + "," + tw.out_path, "--samples",
+                                 "4" if tier == "quick" else "200", "--seed", str(seed()), "--k", str(K_TOL)], timeout=3000)
+    absorb_float(chk, rep2, "atan2 over the quadrants, next to and on the half axes")
+    chk.cov["atan2_cases"] = rep2["distinct_cases"]
+    if rep2["distinct_cases"] < 500:
+        raise ToolError("vacuity: only %d (type, atan2 region) cases" % rep2["distinct_cases"])
     return chk.finish(rule="one case = (concrete type incl. f32/dynamic/nested, function); per case random real parts over the "
                            "function's domain minus a margin (both signs, all branches) and random, zero or absent derivative "
                            "parts; expected part = exported Faa di Bruno polynomial over the exported tower, tolerance "
-                           "K*u*sum|terms|; plus bit-exact probes at points with rational towers")
+                           "K*u*sum|terms|; atan2 over the four quadrants, next to each half axis (ratio 1e-9 .. 1e-2) and on the half axes; "
+                           "plus bit-exact probes at points with rational towers")
